@@ -90,6 +90,10 @@ type Monitor struct {
 
 	datastoreInSync bool
 
+	// noFlushBoundaries: the caller cannot observe flush boundaries (AsyncCalcGraph stream), so the
+	// flush-scoped VTEP/route rule is not evaluated at all.
+	noFlushBoundaries bool
+
 	// Per-flush bookkeeping for the VTEP/route rule.
 	flushRouteAdds   []routeAdd          // route updates needing a VTEP, with VTEP presence at that time
 	flushVTEPRemoved map[string][]string // node -> dsts of VXLAN routes to node present when its VTEP was removed
@@ -133,6 +137,11 @@ func (m *Monitor) resetFlush() {
 	m.flushVTEPAdded = map[string]bool{}
 	m.flushRouteDelFor = map[string]bool{}
 }
+
+// NoFlushBoundaries switches the flush-scoped VTEP/route rule off; use it when EndFlush cannot be
+// called at the real flush boundaries (the rule would otherwise relate messages of different
+// flushes and raise false alarms).
+func (m *Monitor) NoFlushBoundaries() { m.noFlushBoundaries = true }
 
 // DatastoreInSync tells the monitor that the datastore has reported in-sync to Felix (call it
 // immediately *before* handing the status to the code under test).
@@ -443,7 +452,7 @@ func (m *Monitor) OnEvent(msg any) error {
 		m.noteRemoved("hep/" + k)
 
 	case *proto.RouteUpdate:
-		if RouteNeedsVTEP(e) {
+		if RouteNeedsVTEP(e) && !m.noFlushBoundaries {
 			_, there := m.VTEPs[e.DstNodeName]
 			m.flushRouteAdds = append(m.flushRouteAdds, routeAdd{dst: e.Dst, node: e.DstNodeName, vtepThere: there, seq: m.NumMessages})
 		}
@@ -453,7 +462,7 @@ func (m *Monitor) OnEvent(msg any) error {
 		old, ok := m.Routes[e.Dst]
 		if !ok {
 			bad("RouteRemove for route %q which does not exist", e.Dst)
-		} else if RouteNeedsVTEP(old) {
+		} else if RouteNeedsVTEP(old) && !m.noFlushBoundaries {
 			m.flushRouteDelFor[old.DstNodeName] = true
 			for _, dst := range m.flushVTEPRemoved[old.DstNodeName] {
 				if dst == e.Dst {
@@ -475,7 +484,7 @@ func (m *Monitor) OnEvent(msg any) error {
 		}
 		var dsts []string
 		for _, dst := range sortedKeys(m.Routes) {
-			if r := m.Routes[dst]; RouteNeedsVTEP(r) && r.DstNodeName == e.Node {
+			if r := m.Routes[dst]; !m.noFlushBoundaries && RouteNeedsVTEP(r) && r.DstNodeName == e.Node {
 				dsts = append(dsts, dst)
 			}
 		}
